@@ -120,6 +120,11 @@ DC_SPECS = {
                       fields=[_f('a', 'int'), _f('h', ['list', 'int'], init=False, exclude=True, compare=False, repr=False),
                               _f('c', 'str', ['value', "'c'"])],
                       init_false_setter=[['h', '[]']]),
+    # a class that is not frozen and whose __post_init__ fills a field in by ordinary attribute assignment
+    'dc_assign': dict(name='DcAssign', opts={'in_format': ['struct', 'tuple'], 'frozen': False},
+                      fields=[_f('a', 'int'), _f('h', 'str', init=False, exclude=True, compare=False, repr=False),
+                              _f('c', 'str', ['value', "'c'"])],
+                      init_false_setter=[['h', "'set'"]], plain_setattr=True),
     # the same in front of another positional field, with tuple OUTPUT (round trips through the positional layout)
     'dc_noinit_tuple': dict(name='DcNoinitTuple', opts={'in_format': ['tuple', 'struct'], 'out_format': 'tuple'},
                             fields=[_f('start', 'fraction'), _f('label', 'str', init=False, exclude=True, compare=False, repr=False),
@@ -552,6 +557,13 @@ def expressions_ext(tier: str) -> t.List[t.Any]:
     extra += [['union', ['annot', ['union', 'int', 'none'], 'even'], 'bytes'],
               ['list', ['union', 'tag_adj', 'int']], ['dict', 'str', 'tag_int'], ['dict', 'vol_int', 'int'],
               ['dict', 'vol_str', 'any'], ['set', 'vol_int']]
+    # a tagged union as a member of an untagged one, followed by mapping-shaped members that would take the body without its tag
+    for tg in ('tag_int', 'tag_ext', 'tag_adj'):
+        for later in (['dict', 'str', 'int'], ['dict', 'str', 'any'], 'dc_defaults'):
+            extra.append(['union', tg, later])
+            extra.append(['union', later, tg])
+        extra.append(['list', ['union', tg, ['dict', 'str', 'int']]])
+        extra.append(['optional', tg])
     for e in extra:
         if _key(e) not in seen:
             seen.add(_key(e))
